@@ -108,13 +108,13 @@ func closeDB(dir string) {
 
 // Cond is a generated query condition tree.
 type Cond struct {
-	Op   string  `json:"op"` // and or not | operator name
-	Sub  []*Cond `json:"sub,omitempty"`
-	Key  string  `json:"key,omitempty"`
-	IVal int64   `json:"i,omitempty"`
-	FVal float64 `json:"f,omitempty"`
-	SVal string  `json:"s,omitempty"`
-	BVal bool    `json:"b,omitempty"`
+	Op   string   `json:"op"` // and or not | operator name
+	Sub  []*Cond  `json:"sub,omitempty"`
+	Key  string   `json:"key,omitempty"`
+	IVal int64    `json:"i,omitempty"`
+	FVal float64  `json:"f,omitempty"`
+	SVal string   `json:"s,omitempty"`
+	BVal bool     `json:"b,omitempty"`
 	List []string `json:"list,omitempty"`
 }
 
@@ -245,11 +245,11 @@ func (c *Cond) eval(f Fields) bool {
 // ---- reference model -------------------------------------------------------------
 
 type mrec struct {
-	Nonce   string
-	F       Fields
+	Nonce                               string
+	F                                   Fields
 	Created, Modified, Expires, Deleted int64
-	Secret, Crown bool
-	flaggedAtWrite bool
+	Secret, Crown                       bool
+	flaggedAtWrite                      bool
 	// Fuzzy: the expiry was computed from the clock while the clock's second changed during the write: it is
 	// known only to within a second. RelDelayed: a relative expiry written through the delayed-write cache is
 	// re-computed when the write is flushed, so the record may live longer than the model's value.
